@@ -31,7 +31,7 @@ pub open spec fn dist_code(dist: u32) -> int {
 
 pub open spec fn ref_len(r: PreflateTokenReference) -> u32 { (r.len as u32 + 3) as u32 }
 pub open spec fn token_ok(t: PreflateToken) -> bool {
-    match t { PreflateToken::Literal(l) => true, PreflateToken::Reference(r) => 1 <= r.dist <= 32768 }
+    match t { PreflateToken::Literal(l) => true, PreflateToken::Reference(r) => 1 <= r.dist <= 32768 && (r.irregular258 ==> ref_len(r) == 258) }
 }
 
 
